@@ -187,23 +187,19 @@ def _by_role(ctx, module_suffix, pred, what, prefer=None):
     role (recognised by what it calls), independent of its private name."""
     cands = []
     for fi in ctx.repo.all_functions():
-        # module-level functions, and methods of private helper classes of the module
+        # module-level functions, and methods of private helper classes, of
+        # the visualisation package (modules are renamed, split and merged;
+        # the role is what identifies the function)
         own_cls = fi.cls is not None and not (fi.cls.name.startswith("_") and not fi.cls.bases)
-        if isinstance(fi.node, ast.Lambda) or own_cls or not fi.module.name.endswith(module_suffix):
+        if isinstance(fi.node, ast.Lambda) or own_cls or not fi.module.name.startswith("job_shop_lib.visualization"):
             continue
         if any(pred(n) for n in own_nodes(fi.node)):
             cands.append(fi)
-    if not cands:
-        # the helper may have been moved to a sibling module of the same
-        # sub-package that the anchored module imports from
-        home = [m for m in ctx.repo.modules.values() if m.name.endswith(module_suffix)]
-        srcs = {src for m in home for (src, _a) in m.imports.values()}
-        pkgs = {m.name.rsplit(".", 1)[0] for m in home}
-        for fi in ctx.repo.all_functions():
-            if isinstance(fi.node, ast.Lambda) or fi.cls is not None:
-                continue
-            if fi.module.name in srcs and fi.module.name.rsplit(".", 1)[0] in pkgs and any(pred(n) for n in own_nodes(fi.node)):
-                cands.append(fi)
+    # the anchored module is a tie-breaker only
+    if len(cands) > 1 and not (prefer and any(f.name == prefer for f in cands)):
+        there = [f for f in cands if f.module.name.endswith(module_suffix)]
+        if there:
+            cands = there
     if prefer:
         named = [f for f in cands if f.name == prefer]
         if named:
@@ -439,7 +435,7 @@ def run(ctx):
     # every bar call draws the single range of one operation
     batched = False
     for f in repo.all_functions():
-        if isinstance(f.node, ast.Lambda) or not f.module.name.endswith(PLOTMOD):
+        if isinstance(f.node, ast.Lambda) or not f.module.name.startswith("job_shop_lib.visualization"):
             continue
         for n in own_nodes(f.node):
             if isinstance(n, ast.Call) and ast.unparse(n.func).endswith("broken_barh"):
@@ -826,7 +822,7 @@ def run(ctx):
     # smallest such function is taken
     cands = []
     for fi in repo.all_functions():
-        if isinstance(fi.node, ast.Lambda) or fi.cls is not None or not fi.module.name.endswith(PLOTMOD):
+        if isinstance(fi.node, ast.Lambda) or fi.cls is not None or not fi.module.name.startswith("job_shop_lib.visualization"):
             continue
         ff = ctx.norm.flat(fi, depth=3)
         calls = {n.func.attr for n in own_nodes(ff.node) if isinstance(n, ast.Call) and isinstance(n.func, ast.Attribute)}
